@@ -8,7 +8,7 @@ and = min, or = max, xor as documented).  72 cases per operator; all inputs othe
 flags stay symbolic.  The helpers that fill the complement inside a cell (not_in_cell_4_or/xor,
 go_up/go_down) and `not` are checked for the constant flags they must use.
 NOT decided: that the sites compose to the documented map on whole BMOCs (tree shapes)."""
-from sym import Engine, show, C
+from sym import walk, Engine, show, C
 from rules.common import strip_generics
 from rules.bmocops import OpSummary, expected, plain, M, PUSH
 
@@ -203,6 +203,35 @@ def containment_test(ctx, crate):
                ("is_in reads other fields of the cells (field indices %s): raw values of different BMOCs are not comparable" % sorted(flds) if not only else "is_in(%s, %s) = %s, expected %s" % bad[0]), at=b.span, kind="N")
 
 
+def consume_tests(ctx, crate):
+    """N: the two `consume_while_overlapped*` helpers skip cells of the other operand while they are
+    INSIDE the low-resolution cell: the loop test is `is_in(low_resolution, cell)` (plus `!is_full` for
+    the `_and_partial` variant) and no comparison of raw values — a cell's raw value lies in the middle
+    of its descendants', so `raw < raw of the next cell` also swallows the first half of that next cell."""
+    clause = "containment-test"
+    isin = M + "is_in"
+    rv = crate.field_index("nested::bmoc::Cell", "raw_value")
+    for short in ("consume_while_overlapped", "consume_while_overlapped_and_partial"):
+        fn = M + short
+        b = ctx.anchor(crate, fn, clause)
+        if b is None: continue
+        nxt = {p_ for p_ in crate.bodies if p_.endswith("BMOCIter as std::iter::Iterator>::next")}
+        e = Engine(crate, opaque={isin} | nxt); e.run(fn); ctx.functions |= e.visited_fns
+        calls = [ev for ev in e.events.values() if ev.callee == isin]
+        okc = bool(calls) and all(ev.args[0] == ('p', 'low_resolution') or ev.args[0] == ('deref', ('p', 'low_resolution')) or (ev.argvals and ev.argvals[0] is None and 'low_resolution' in str(ev.args[0])) for ev in calls)
+        rets = {ev.ret for ev in calls}
+        # the helpers compare nothing themselves (flags and the answer of is_in only): any ordering comparison is a rewrite of the test
+        raw_cmp = [show(d)[:60] for d, loc in e.branches if loc[0] == fn and any(x[0] == 'op' and x[1] in ('lt', 'le', 'gt', 'ge') for x in walk(d))]
+        def from_isin(d, depth=0):
+            if d in rets or any(x in rets for x in walk(d)): return True
+            if d[0] == 'phi' and depth < 4: return any(from_isin(o, depth + 1) for o in e.phi_ops.get(d, ()))
+            return False
+        uses = any(from_isin(d) for d, loc in e.branches if loc[0] == fn)
+        ok = okc and uses and not raw_cmp
+        ctx.report(clause, short + ":loops-while-is_in", ok, "continues on is_in(low_resolution, cell); no raw-value comparison" if ok else
+                   "the loop of %s is driven by %s (is_in calls: %d, used as a test: %s)" % (short, raw_cmp or "something else than is_in", len(calls), uses), at=b.span, kind="N")
+
+
 def run(ctx):
     crate = ctx.crate("rel")
     n = 0
@@ -211,5 +240,6 @@ def run(ctx):
     ctx.floor("operators-summarised", n, 3)
     fill_helpers(ctx, crate)
     containment_test(ctx, crate)
+    consume_tests(ctx, crate)
     ctx.not_decided("that the site rules compose to the documented cell-to-state map on whole BMOCs for all pairs of trees (quantifies over tree shapes)")
     ctx.extra["cases_per_operator"] = 72
